@@ -204,14 +204,14 @@ def gen(ctx):
 
 
 def run(ctx):
-    section = gen(ctx)
+    section = ctx.guard("regenerate", gen, ctx)
     ok = ctx.lean_build(["HitenModel.Props.C12"])
     if ok:
         ctx.lean_audit(["HitenModel.Props.C12"], ["HitenModel.Props.C12", "HitenModel.Gen.C12"])
         if ctx.thorough():
             ctx.leanchecker(["HitenModel.Props.C12"])
     if section is not None:
-        validate_section(ctx, section)
+        ctx.guard("validate_section", validate_section, ctx, section)
     retention_filter(ctx)
     numerics(ctx)
     ctx.rule = ("(orbit, stable/unstable, positive/negative, phase fraction, displacement, method) on real corrected orbits; distinct by that "
